@@ -8,6 +8,7 @@ Deciding theorems (coq/props/C07.v over coq/theories/{TpdC07,TpdDerivC07}.v):
   equilibrium_phase_not_accepted                       fugacity mismatch < 1e-8 keeps the coexisting phase above ZERO_TPD
   accept_dedup / stable_verdict_iff / minimize_ok_implies   acceptance + deduplication, verdict, control skeleton of minimize_tpd
   tm_partial / newton_gradient / newton_grad_hess / hess_code_vs_true   gradient and Hessian of stability_newton_step as derivatives of tm
+  cascade_failed_guess_falls_back / cascade_guess_only_helps / no_phase_split_only_from_stability   start cascade of tp_flash (FlashCascadeC07.v)
 Tie (route H, every run): hooked define_trial_state / minimize_tpd / stability_newton_step and the public stability_analysis, ln_phi,
 dln_phi_dnj, is_trivial_solution on real mixtures vs. the models (`interval` goals over R, vm_compute over Q).
 Partial (support search, not decided by proof): completeness of the verdict on both sides of the envelope with the 2 % margin,
@@ -91,9 +92,10 @@ def run(ctx):
         by_type.setdefault(f.get("type", "other"), []).append(f)
     for ty, fl in sorted(by_type.items()):
         f0 = fl[0]
-        V.violation(ctx, "%s [%s]: %s" % (f0["kind"], json.dumps({k: f0["key"][k] for k in f0["key"] if k != "spec"}), f0["what"]),
+        V.violation(ctx, "%s [%s]: %s" % (f0["kind"], json.dumps({k: f0["key"][k] for k in f0["key"] if k != "spec"})[:700], f0["what"]),
                     {"broken": "support search on the real implementation: " + ty, "failing_inputs": fl[:10], "count": len(fl),
-                     "sys": f0["key"].get("sys"), "spec": f0["key"].get("spec"), "known_point": f0["key"].get("known_point")}, found_input=True)
+                     "sys": f0["key"].get("sys"), "spec": f0["key"].get("spec") or (f0["key"].get("sweep") or {}).get("feed_spec"),
+                     "guess_spec": (f0["key"].get("sweep") or {}).get("guess_spec"), "known_point": f0["key"].get("known_point")}, found_input=True)
     any_support_failure = bool(new_fail)
 
     def corr_violation(what, rp, concrete=None):
@@ -222,16 +224,47 @@ def run(ctx):
         corr_violation("PhaseEquilibrium::is_trivial_solution differs from the model TpdC07.is_trivial on %d of %d pairs; first: %s" % (len(bad), n_triv, json.dumps(bad[0])[:400]),
                        {"broken": "correspondence is_trivial_solution", "mismatches": bad[:10]})
 
+    # ---- F. start cascade of tp_flash (initial state -> stability start 1 -> stability start 2) vs FlashCascadeC07.cascade
+    n_casc, bad, missing = 0, [], []
+    for g in impl.get("cascade", []):
+        out = res[os.path.join(ctx.gen, g["file"])]
+        obligations += 1
+        tags = V.tagged(out["out"]).get("CASC")
+        if out["rc"] != 0 or not tags or not isinstance(tags[0], list) or len(tags[0]) != len(g["cases"]):
+            missing.append({"file": g["file"], "coq_error": V.coq_error(out["out"])})
+            continue
+        discharged += 1
+        for m, c in zip(tags[0], g["cases"]):
+            n_casc += 1
+            visited, result = list(m[0]), list(m[1])
+            # error kinds of attempts that are not returned are unobservable (code 9 in the model input): compare the kind only
+            # when the model's error is an observed one
+            ok = visited == c["impl_visited"] and result[0] == c["impl_result"][0] and (result[1] == c["impl_result"][1] or (result[0] == 0 and result[1] == 9))
+            if not ok:
+                c2 = dict(c)
+                c2["model"] = {"visited": visited, "result": result}
+                bad.append(c2)
+    if missing:
+        V.violation(ctx, "flash start-cascade model did not evaluate: %s" % missing[0], {"broken": "gen/C07/casc_*.v", "files": missing}, found_input=False)
+    if bad:
+        c = bad[0]
+        failing = c["impl_result"][0] == 0
+        corr_violation("tp_flash with an initial state does not follow the start cascade FlashCascadeC07.cascade (guess -> stability start) on %d of %d flashes; first: %s"
+                       % (len(bad), n_casc, json.dumps(c)[:700]),
+                       {"broken": "correspondence tp_flash start cascade (cascade_failed_guess_falls_back / no_phase_split_only_from_stability are about the model)",
+                        "mismatches": bad[:10], "sys": c["key"]["sweep"]["sys"], "spec": c["key"]["sweep"]["feed_spec"], "guess_spec": c["key"]["sweep"]["guess_spec"]},
+                       True if failing else None)
+
     cov = {
         "obligations": obligations,
         "discharged": discharged,
-        "checker_cmd": "make -C coq (coqc 8.16.1, full .vo: theories/TpdC07.v theories/TpdDerivC07.v props/C07.v) ; coqc coq/gen/C07/{tpd,step,ctrl,stab,triv}_*.v",
+        "checker_cmd": "make -C coq (coqc 8.16.1, full .vo: theories/TpdC07.v theories/TpdDerivC07.v theories/FlashCascadeC07.v props/C07.v) ; coqc coq/gen/C07/{tpd,step,ctrl,stab,triv,casc}_*.v",
         "trusted_base": [
             "Coq 8.16.1 kernel incl. the VM (vm_compute)",
             "standard-library axioms reported by Print Assumptions (classical reals, classic, functional_extensionality_dep); the Q-valued theorems are closed under the global context",
             "Interval 4.x / Flocq / Coquelicot (the `interval` tactic closes the generated goals; Coquelicot's is_derive for the gradient/Hessian theorems)",
             "hand-written models TpdC07.v / TpdDerivC07.v (tied to the code by the differential runs of this check, not generated from it)",
-            "cfg(feos_verif) hooks verif_define_trial_state / verif_minimize_tpd / verif_stability_newton_step (pure re-exports)",
+            "cfg(feos_verif) hooks verif_define_trial_state / verif_minimize_tpd / verif_stability_newton_step (pure re-exports); verif_c12 event trace (Stage / IterStart / Converged events of tp_flash, observation only)",
             "harness: iterates of minimize_tpd are obtained by re-running the hooked function with max_iter = k; per-iteration error/tpd of the control-skeleton trace are recomputed in f64 by the harness with the model formulas (tied to Coq by the step goals on a subset)",
             "harness exact dyadic printer, python comparator and Coq-output parser",
             "floating-point round-off is not modelled (real / rational semantics); thresholds hit within round-off are counted, not judged",
@@ -247,6 +280,8 @@ def run(ctx):
         "control_skeleton_threshold_ties_(allowed_<=2%)": skipped_ctrl,
         "acceptance_dedup_feeds_compared": n_stab,
         "is_trivial_pairs_compared": n_triv,
+        "flash_start_cascade_runs_compared": n_casc,
+        "flashes_with_initial_state": impl.get("sweep"),
         "is_trivial_threshold_ties": near,
         "tie": {k: v for k, v in impl["tie"].items() if k != "formula_mismatch"},
         "tolerances": {"tpd_model_vs_f64": 1e-12, "substitution_map_rel": 1e-12, "newton_err_and_objective_rel": 1e-11,
@@ -284,7 +319,10 @@ def replay(rp):
         print(json.dumps(r, indent=1)[:6000])
         return 1 if any(k.get("failures") for k in r["known_points"]) else 0
     if rp.get("sys") and rp.get("spec"):
-        V.sh([exe, "--out", out_dir, "--sys", rp["sys"], "--spec", json.dumps(rp["spec"])], cwd=V.VERIF)
+        cmd = [exe, "--out", out_dir, "--sys", rp["sys"], "--spec", json.dumps(rp["spec"])]
+        if rp.get("guess_spec"):
+            cmd += ["--guess", json.dumps(rp["guess_spec"])]
+        V.sh(cmd, cwd=V.VERIF)
         r = json.load(open(os.path.join(out_dir, "impl.json")))
         print(json.dumps(r, indent=1)[:6000])
         return 1 if r["failures"] else 0
